@@ -1,7 +1,7 @@
 #!/bin/bash
 # usage: tools/run_all.sh [quick|thorough]  -- run every registered check, one line each
 TIER="${1:-quick}"
-cd /verif
+cd "$(dirname "$0")/.."
 FAIL=0
 for id in $(python3 -c "import json;print(' '.join(c['property_id'] for c in json.load(open('MANIFEST.json'))['checks']))"); do
     S=$(date +%s.%N)
@@ -12,8 +12,9 @@ for id in $(python3 -c "import json;print(' '.join(c['property_id'] for c in jso
 done
 python3-vt - <<'PY'
 import json,jsonschema,glob
-jsonschema.validate(json.load(open('/verif/MANIFEST.json')), json.load(open('/root/.vp/MANIFEST.schema.json')))
-for f in glob.glob('/verif/evidence/*.json'):
+jsonschema.validate(json.load(open('MANIFEST.json')), json.load(open('/root/.vp/MANIFEST.schema.json')))
+import os
+for f in glob.glob(os.environ.get('XSMC_OUT','.')+'/evidence/*.json'):
     jsonschema.validate(json.load(open(f)), json.load(open('/root/.vp/EVIDENCE.schema.json')))
 print('schemas ok')
 PY
